@@ -15,26 +15,50 @@ import (
 func init() { register("C02", c02) }
 
 // discardTable: the justified discards of an error result in library code
-// (C02/R4). Key: "function|callee"; value: allowed count and the reason.
+// (C02/R4), keyed by package and by the ROLE of the callee (so that renaming a
+// private helper or switching ioutil.ReadAll→io.ReadAll changes nothing).
 var discardTable = map[string]struct {
 	n   int
 	why string
 }{
-	"(*inprocgrpc.Channel).Invoke$2|inprocgrpc.writeMessage":            {4, "unary server goroutine: a frame abandoned because the context ended is detected by the client's ctx re-check after receive (C02/R1)"},
-	"(*inprocgrpc.inProcessServerStream).finish|inprocgrpc.writeMessage": {3, "final frames abandoned only when the context ended; client re-checks ctx after receive (readMessage)"},
-	"(*inprocgrpc.inProcessServerStream).SetTrailer|inprocgrpc.inProcessServerStream.TrySetTrailer": {1, "grpc.ServerStream.SetTrailer has no error result; TrySetTrailer is the error-returning variant used by the transport stream"},
-	"httpgrpc.handleStream$1|httpgrpc.writeProtoMessage":                 {1, "final trailer frame: a failed write leaves the reply without trailer, which the client reports as an error (C02/R1 HTTP)"},
-	"httpgrpc.handleMethod$1|net/http.ResponseWriter.Write":              {1, "unary body write: a short body contradicts Content-Length and fails the client's read"},
-	"httpgrpc.handleMethod$1|httpgrpc.drainAndClose":                     {1, "deferred drain of the request body: nothing to report to"},
-	"httpgrpc.handleStream$1|httpgrpc.drainAndClose":                     {1, "deferred drain of the request body: nothing to report to"},
-	"(*httpgrpc.Channel).Invoke$1|io.Closer.Close":                       {1, "closing the reply body after it was read completely"},
-	"(*httpgrpc.clientStream).SendMsg|httpgrpc.clientStream.readErrorIfDone": {1, "only the 'done' flag is needed to refuse a send; the terminal error itself is reported by RecvMsg"},
-	"httpgrpc.getUnaryCodec|mime.ParseMediaType":                         {1, "an unparsable Content-Type yields an empty media type, hence no codec, hence 415 (C11/R1)"},
-	"httpgrpc.getStreamingCodec|mime.ParseMediaType":                     {1, "an unparsable Content-Type yields an empty media type, hence no codec, hence 415 (C11/R1)"},
-	"(*httpgrpc.clientStream).doHttpCall$3|io/ioutil.ReadAll":            {1, "deferred drain of the reply body so the connection can be reused"},
-	"(*httpgrpc.clientStream).doHttpCall$3|io.Closer.Close":              {1, "closing the drained reply body"},
-	"(*httpgrpc.clientStream).doHttpCall$1|io.PipeReader.CloseWithError": {1, "always returns nil (io.Pipe contract)"},
-	"httpgrpc.statFromResponse|strconv.ParseInt":                         {0, ""},
+	"inprocgrpc|frame-writer":      {7, "server goroutines abandon a frame only when the context ended; the client re-checks ctx after every receive (C02/R1)"},
+	"inprocgrpc|TrySetTrailer":     {1, "grpc.ServerStream.SetTrailer has no error result; TrySetTrailer is the error-returning variant used by the transport stream"},
+	"httpgrpc|http-frame-writer":   {1, "final trailer frame: a failed write leaves the reply without trailer, which the client reports as an error (C02/R1 HTTP)"},
+	"httpgrpc|Write":               {1, "unary body write: a short body contradicts Content-Length and fails the client's read"},
+	"httpgrpc|drain":               {2, "deferred drain of the request body: nothing to report to"},
+	"httpgrpc|Close":               {2, "closing a reply body that was read completely / drained"},
+	"httpgrpc|ReadAll":             {1, "deferred drain of the reply body so the connection can be reused"},
+	"httpgrpc|CloseWithError":      {1, "always returns nil (io.Pipe contract)"},
+	"httpgrpc|done-probe":          {1, "SendMsg only needs the 'done' flag to refuse a send; the terminal error itself is reported by RecvMsg"},
+	"httpgrpc|ParseMediaType":      {2, "an unparsable Content-Type yields an empty media type, hence no codec, hence 415 (C11/R1)"},
+}
+
+// calleeRole names the role of a callee whose error is discarded.
+func calleeRole(p *core.Prog, cc *ssa.CallCommon) string {
+	ci := core.InfoOf(cc)
+	if ci.Static != nil && strings.HasPrefix(ci.Pkg, core.ModulePath) {
+		fn := ci.Static
+		if sendsOnParam(fn) >= 0 {
+			return "frame-writer"
+		}
+		if len(fn.Params) >= 1 && core.TypeStr(fn.Params[0].Type()) == "io.Writer" {
+			return "http-frame-writer"
+		}
+		if len(fn.Params) == 1 && core.TypeStr(fn.Params[0].Type()) == "io.ReadCloser" {
+			return "drain"
+		}
+		if fn.Signature.Results().Len() == 2 && core.TypeStr(fn.Signature.Results().At(0).Type()) == "bool" {
+			return "done-probe"
+		}
+		return fn.Name()
+	}
+	if ci.Is("io.ReadAll") || ci.Is("io/ioutil.ReadAll") {
+		return "ReadAll"
+	}
+	if ci.Dyn {
+		return "dynamic:" + core.TypeStr(cc.Value.Type())
+	}
+	return ci.Name
 }
 
 func c02(c *core.Ctx) {
@@ -69,6 +93,7 @@ func c02(c *core.Ctx) {
 			pos    token.Pos
 		}
 		counts := map[string]int{}
+		where := map[string][]string{}
 		first := map[string]token.Pos{}
 		for _, pkgS := range []string{"inprocgrpc", "httpgrpc", "internal", "."} {
 			for _, fn := range p.LibFuncs(pkgS) {
@@ -102,12 +127,11 @@ func c02(c *core.Ctx) {
 					if !discarded {
 						return
 					}
-					ci := core.InfoOf(cc)
-					name := strings.ReplaceAll(ci.Full(), core.ModulePath+"/", "")
-					if ci.Dyn {
-						name = "dynamic:" + core.TypeStr(cc.Value.Type())
+					k := pkgS + "|" + calleeRole(p, cc)
+					if pkgS == "." {
+						k = "grpchan|" + calleeRole(p, cc)
 					}
-					k := core.FuncName(fn) + "|" + name
+					where[k] = append(where[k], core.FuncName(fn))
 					counts[k]++
 					if _, ok := first[k]; !ok {
 						first[k] = in.Pos()
@@ -124,9 +148,9 @@ func c02(c *core.Ctx) {
 			ent, ok := discardTable[k]
 			switch {
 			case !ok || ent.n == 0:
-				c.Fail("discard:"+k, first[k], "error result discarded (%d×) and not in the justified table: an error on the response path may be silently dropped", counts[k])
+				c.Fail("discard:"+k, first[k], "error result discarded (%d×, in %v) and not in the justified table: an error on the response path may be silently dropped", counts[k], uniqS(where[k]))
 			case counts[k] > ent.n:
-				c.Fail("discard:"+k, first[k], "error result discarded %d× but only %d justified (%s)", counts[k], ent.n, ent.why)
+				c.Fail("discard:"+k, first[k], "error result discarded %d× (in %v) but only %d justified (%s): a new site drops an error", counts[k], uniqS(where[k]), ent.n, ent.why)
 			default:
 				c.Ok("discard:"+k, first[k], "%d× — %s", counts[k], ent.why)
 			}
